@@ -225,17 +225,19 @@ Proof.
 Qed.
 
 (* ---- the whole construction as a sequence of configuration updates ---- *)
-Definition all_updates (lm lc ls lo : Z) (mgrs : list centry) (spec over : dict) (is : list item) : list upd :=
-  (spec, ls, 0) :: (over, lo, 0) :: map (upd_of lm) mgrs ++ map (upd_of lc) (pre_all is).
+Definition all_updates (lu lm lc ls lo : Z) (mgrs : list centry) (user spec over : dict) (is : list item) : list upd :=
+  (user, lu, 0) :: (spec, ls, 0) :: (over, lo, 0) :: map (upd_of lm) mgrs ++ map (upd_of lc) (pre_all is).
 
-Lemma build_context_ok lm lc ls lo mgrs spec over is ctx :
-  build_context layers lm lc ls lo mgrs spec over is = Ok ctx ->
-  apply_updates layers empty_tree (all_updates lm lc ls lo mgrs spec over is) = COk (c_cfg ctx) /\
+Lemma build_context_ok lu lm lc ls lo mgrs user spec over is ctx :
+  build_context layers lu lm lc ls lo mgrs user spec over is = Ok ctx ->
+  apply_updates layers empty_tree (all_updates lu lm lc ls lo mgrs user spec over is) = COk (c_cfg ctx) /\
   c_managers ctx = names mgrs /\ c_components ctx = names (pre_all is) /\
   NoDup (names mgrs) /\ NoDup (names (pre_all is)).
 Proof.
   unfold build_context, build_cfg, all_updates. rewrite !update_set_data. cbn [apply_updates].
-  destruct (set_data layers (DDict spec) (Some empty_tree) ls 0) as [t1|e] eqn:E1; [|discriminate].
+  destruct (set_data layers (DDict user) (Some empty_tree) lu 0) as [t0|e] eqn:E0; [|discriminate].
+  rewrite update_set_data.
+  destruct (set_data layers (DDict spec) (Some t0) ls 0) as [t1|e] eqn:E1; [|discriminate].
   rewrite update_set_data.
   destruct (set_data layers (DDict over) (Some t1) lo 0) as [t2|e] eqn:E2; [|discriminate].
   destruct (add_flat layers lm t2 [] mgrs) as [[t3 mn]|e|] eqn:E3; try discriminate.
@@ -264,8 +266,9 @@ Proof.
   apply split_at_sound in E. apply in_split in H. destruct H as [b [c Er]]. subst. exists a, b, c. reflexivity.
 Qed.
 
-Lemma layers_okb_sound lm lc ls lo : layers_okb layers lm lc ls lo = true ->
-  NoDup layers /\ below layers lc ls /\ below layers lc lo /\ below layers lm ls /\ below layers lm lo.
+Lemma layers_okb_sound lu lm lc ls lo : layers_okb layers lu lm lc ls lo = true ->
+  NoDup layers /\ below layers lc ls /\ below layers lc lo /\ below layers lm ls /\ below layers lm lo /\
+  below layers lu ls /\ below layers lu lo.
 Proof.
   unfold layers_okb. intros H. repeat (apply andb_true_iff in H; destruct H as [H ?]).
   split; [now apply znodupb_NoDup|]. repeat split; now apply belowb_sound.
@@ -325,8 +328,10 @@ Qed.
 (* USER CONFIGURATION WINS                                                                                     *)
 Section Wins.
 Variable layers : list Z.
-Variables lm lc ls lo : Z.
+Variables lu lm lc ls lo : Z.
 Hypothesis Hnd : NoDup layers.
+Hypothesis Hus : below layers lu ls.
+Hypothesis Huo : below layers lu lo.
 Hypothesis Hcs : below layers lc ls.
 Hypothesis Hco : below layers lc lo.
 Hypothesis Hms : below layers lm ls.
@@ -344,6 +349,8 @@ Lemma in_layers : In lm layers /\ In lc layers /\ In ls layers /\ In lo layers.
 Proof.
   destruct (below_in _ _ Hcs). destruct (below_in _ _ Hmo). tauto.
 Qed.
+Lemma in_layers_user : In lu layers.
+Proof. apply (below_in _ _ Hus). Qed.
 
 (* a layer below [b] (or [b] itself) does not lie above [b] *)
 Lemma below_not_above x b L H : below layers x b -> layers = L ++ b :: H -> ~ In x H.
@@ -354,9 +361,9 @@ Qed.
 Lemma self_not_above b L H : layers = L ++ b :: H -> ~ In b H.
 Proof. intros E. apply (not_above layers b b L H L H Hnd E); [now left | exact E]. Qed.
 
-Lemma in_all_updates mgrs spec over is u : In u (all_updates lm lc ls lo mgrs spec over is) <->
-  u = (spec, ls, 0) \/ u = (over, lo, 0) \/ In u (default_updates mgrs is).
-Proof. unfold all_updates, default_updates. simpl. split; intros [H|[H|H]]; auto. Qed.
+Lemma in_all_updates mgrs user spec over is u : In u (all_updates lu lm lc ls lo mgrs user spec over is) <->
+  u = (user, lu, 0) \/ u = (spec, ls, 0) \/ u = (over, lo, 0) \/ In u (default_updates mgrs is).
+Proof. unfold all_updates, default_updates. simpl. split; intros [H|[H|[H|H]]]; auto. Qed.
 
 Lemma in_default_updates mgrs is d l n : In (d, l, n) (default_updates mgrs is) ->
   (l = lm /\ In (n, d) mgrs) \/ (l = lc /\ In (n, d) (pre_all is)).
@@ -365,11 +372,12 @@ Proof.
     destruct H as [[n' d'] [E H]]; unfold upd_of in E; simpl in E; inversion E; subst; auto.
 Qed.
 
-Lemma all_good mgrs spec over is : wf_data (DDict spec) -> wf_data (DDict over) -> wf_entries mgrs ->
-  wf_entries (pre_all is) -> forall u, In u (all_updates lm lc ls lo mgrs spec over is) -> good layers u.
+Lemma all_good mgrs user spec over is : wf_data (DDict user) -> wf_data (DDict spec) -> wf_data (DDict over) -> wf_entries mgrs ->
+  wf_entries (pre_all is) -> forall u, In u (all_updates lu lm lc ls lo mgrs user spec over is) -> good layers u.
 Proof.
-  intros W1 W2 W3 W4 [[d l] n] H. destruct in_layers as [I1 [I2 [I3 I4]]]. apply in_all_updates in H.
-  destruct H as [H|[H|H]]; try (inversion H; subst; split; assumption).
+  intros W0 W1 W2 W3 W4 [[d l] n] H. destruct in_layers as [I1 [I2 [I3 I4]]]. pose proof in_layers_user as I0.
+  apply in_all_updates in H.
+  destruct H as [H|[H|[H|H]]]; try (injection H as Ed El En; subst d l n; split; assumption).
   apply in_default_updates in H. destruct H as [[-> H]|[-> H]]; split; auto; [apply (W3 n d H) | apply (W4 n d H)].
 Qed.
 
@@ -383,9 +391,9 @@ Proof.
   - left. apply in_split in Hy. destruct Hy as [R1 [R2 ER]]. subst R. exists A, R1, R2. exact E.
 Qed.
 
-Theorem user_wins mgrs spec over is ctx p :
-  wf_data (DDict spec) -> wf_data (DDict over) -> wf_entries mgrs -> wf_entries (pre_all is) ->
-  build_context layers lm lc ls lo mgrs spec over is = Ok ctx ->
+Theorem user_wins mgrs user spec over is ctx p :
+  wf_data (DDict user) -> wf_data (DDict spec) -> wf_data (DDict over) -> wf_entries mgrs -> wf_entries (pre_all is) ->
+  build_context layers lu lm lc ls lo mgrs user spec over is = Ok ctx ->
   (* a keyword argument wins over every default (and over the model specification if that lies below) *)
   (forall v, dleaf (DDict over) p = Some v -> dleaf (DDict spec) p = None \/ below layers ls lo ->
              get layers (c_cfg ctx) p = LVal v) /\
@@ -395,19 +403,26 @@ Theorem user_wins mgrs spec over is ctx p :
   (* whenever the user gives a value - either way - the key reads as a value the user gave, never as a default *)
   (forall vo vs, dleaf (DDict over) p = Some vo -> dleaf (DDict spec) p = Some vs ->
              get layers (c_cfg ctx) p = LVal vo \/ get layers (c_cfg ctx) p = LVal vs) /\
-  (* else the default of the one manager / component that sets the key *)
+  (* else the default of the one manager / component that sets the key (whatever a ~/vivarium.yaml below it says) *)
   (forall X d l n Y v, dleaf (DDict over) p = None -> dleaf (DDict spec) p = None ->
+     dleaf (DDict user) p = None \/ below layers lu l ->
      default_updates mgrs is = X ++ (d, l, n) :: Y -> dleaf (DDict d) p = Some v ->
      (forall d' l' n', In (d', l', n') (X ++ Y) -> dleaf (DDict d') p = None) ->
-     get layers (c_cfg ctx) p = LVal v).
+     get layers (c_cfg ctx) p = LVal v) /\
+  (* else - nobody else sets the key - the value of ~/vivarium.yaml *)
+  (forall v, dleaf (DDict over) p = None -> dleaf (DDict spec) p = None ->
+     (forall d' l' n', In (d', l', n') (default_updates mgrs is) -> dleaf (DDict d') p = None) ->
+     dleaf (DDict user) p = Some v -> get layers (c_cfg ctx) p = LVal v).
 Proof.
-  intros W1 W2 W3 W4 Hb. destruct (build_context_ok layers _ _ _ _ _ _ _ _ _ Hb) as [Hu _].
-  pose proof (all_good mgrs spec over is W1 W2 W3 W4) as Hg. destruct in_layers as [I1 [I2 [I3 I4]]].
+  intros W0 W1 W2 W3 W4 Hb. destruct (build_context_ok layers _ _ _ _ _ _ _ _ _ _ _ Hb) as [Hu _].
+  pose proof (all_good mgrs user spec over is W0 W1 W2 W3 W4) as Hg. destruct in_layers as [I1 [I2 [I3 I4]]].
+  pose proof in_layers_user as I0.
   assert (Hover : forall v, dleaf (DDict over) p = Some v -> dleaf (DDict spec) p = None \/ below layers ls lo ->
                             get layers (c_cfg ctx) p = LVal v).
   { intros v Hv Hs. pose proof I4 as I4'. apply in_split in I4'. destruct I4' as [L [H E]].
     apply (precedence layers _ _ L lo H over 0 p v Hg Hu E); [apply in_all_updates; auto | now rewrite <- dleaf_odleaf|].
-    intros d' l' n' Hin Hl. apply in_all_updates in Hin. destruct Hin as [Hin|[Hin|Hin]].
+    intros d' l' n' Hin Hl. apply in_all_updates in Hin. destruct Hin as [Hin|[Hin|[Hin|Hin]]].
+    + injection Hin as Ed' El' En'; subst d' l' n'. exfalso. apply (below_not_above _ _ L H Huo E Hl).
     + injection Hin as Ed' El' En'; subst d' l' n'. destruct Hs as [Hs|Hs]; [now rewrite <- dleaf_odleaf|].
       exfalso. apply (below_not_above _ _ L H Hs E Hl).
     + injection Hin as Ed' El' En'; subst d' l' n'. exfalso. apply (self_not_above _ L H E Hl).
@@ -417,58 +432,68 @@ Proof.
                             get layers (c_cfg ctx) p = LVal v).
   { intros v Hv Ho. pose proof I3 as I3'. apply in_split in I3'. destruct I3' as [L [H E]].
     apply (precedence layers _ _ L ls H spec 0 p v Hg Hu E); [apply in_all_updates; auto | now rewrite <- dleaf_odleaf|].
-    intros d' l' n' Hin Hl. apply in_all_updates in Hin. destruct Hin as [Hin|[Hin|Hin]].
+    intros d' l' n' Hin Hl. apply in_all_updates in Hin. destruct Hin as [Hin|[Hin|[Hin|Hin]]].
+    + injection Hin as Ed' El' En'; subst d' l' n'. exfalso. apply (below_not_above _ _ L H Hus E Hl).
     + injection Hin as Ed' El' En'; subst d' l' n'. exfalso. apply (self_not_above _ L H E Hl).
     + injection Hin as Ed' El' En'; subst d' l' n'. destruct Ho as [Ho|Ho]; [now rewrite <- dleaf_odleaf|].
       exfalso. apply (below_not_above _ _ L H Ho E Hl).
     + exfalso. apply in_default_updates in Hin. destruct Hin as [[-> _]|[-> _]];
         [apply (below_not_above _ _ L H Hms E Hl) | apply (below_not_above _ _ L H Hcs E Hl)]. }
-  split; [exact Hover|]. split; [exact Hspec|]. split.
+  split; [exact Hover|]. split; [exact Hspec|]. split; [|split].
   - intros vo vs Ho Hs. destruct (Z.eq_dec ls lo) as [E|E].
     + (* one layer for both writers: the second update would have been refused *)
       exfalso. subst lo. unfold all_updates in Hu, Hg. rewrite dleaf_odleaf in Ho, Hs.
-      destruct (apply_updates_clash layers [] [] (map (upd_of lm) mgrs ++ map (upd_of lc) (pre_all is)) spec over ls 0 0 p vs vo
+      destruct (apply_updates_clash layers [(user, lu, 0)] [] (map (upd_of lm) mgrs ++ map (upd_of lc) (pre_all is)) spec over ls 0 0 p vs vo
                   empty_tree Hg unfrozen_empty Hs Ho) as [e [He _]].
       pose proof (eq_trans (eq_sym Hu) He) as HH. discriminate HH.
     + destruct (below_total ls lo I3 I4 E) as [Hb'|Hb']; [left; apply Hover; auto | right; apply Hspec; auto].
-  - intros X d l n Y v Ho Hs Ed Hv Hoth.
+  - intros X d l n Y v Ho Hs Hlu Ed Hv Hoth.
     assert (Hin : In (d, l, n) (default_updates mgrs is)) by (rewrite Ed; apply in_or_app; right; now left).
     assert (Il : In l layers) by (apply in_default_updates in Hin; destruct Hin as [[-> _]|[-> _]]; assumption).
     apply in_split in Il. destruct Il as [L [H E]].
     assert (Nl : ~ In l H) by (apply (self_not_above _ L H E)).
     apply (precedence layers _ _ L l H d n p v Hg Hu E); [apply in_all_updates; auto | now rewrite <- dleaf_odleaf|].
-    intros d' l' n' Hin' Hl. apply in_all_updates in Hin'. destruct Hin' as [Hin'|[Hin'|Hin']].
+    intros d' l' n' Hin' Hl. apply in_all_updates in Hin'. destruct Hin' as [Hin'|[Hin'|[Hin'|Hin']]].
+    + injection Hin' as Ed' El' En'; subst d' l' n'. destruct Hlu as [Hlu|Hlu]; [now rewrite <- dleaf_odleaf|].
+      exfalso. apply (below_not_above _ _ L H Hlu E Hl).
     + injection Hin' as Ed' El' En'; subst d' l' n'. now rewrite <- dleaf_odleaf.
     + injection Hin' as Ed' El' En'; subst d' l' n'. now rewrite <- dleaf_odleaf.
     + rewrite Ed in Hin'. apply in_app_or in Hin'. destruct Hin' as [Hin'|[Hin'|Hin']].
       * rewrite <- dleaf_odleaf. apply (Hoth d' l' n'). apply in_or_app. now left.
       * injection Hin' as Ed' El' En'; subst d' l' n'. contradiction.
       * rewrite <- dleaf_odleaf. apply (Hoth d' l' n'). apply in_or_app. now right.
+  - intros v Ho Hs Hd Hv. pose proof I0 as I0'. apply in_split in I0'. destruct I0' as [L [H E]].
+    apply (precedence layers _ _ L lu H user 0 p v Hg Hu E); [apply in_all_updates; auto | now rewrite <- dleaf_odleaf|].
+    intros d' l' n' Hin' Hl. apply in_all_updates in Hin'. destruct Hin' as [Hin'|[Hin'|[Hin'|Hin']]].
+    + injection Hin' as Ed' El' En'; subst d' l' n'. exfalso. apply (self_not_above _ L H E Hl).
+    + injection Hin' as Ed' El' En'; subst d' l' n'. now rewrite <- dleaf_odleaf.
+    + injection Hin' as Ed' El' En'; subst d' l' n'. now rewrite <- dleaf_odleaf.
+    + rewrite <- dleaf_odleaf. apply (Hd d' l' n' Hin').
 Qed.
 
-Lemma build_context_not_oof mgrs spec over is : build_context layers lm lc ls lo mgrs spec over is <> OutOfFuel.
+Lemma build_context_not_oof mgrs user spec over is : build_context layers lu lm lc ls lo mgrs user spec over is <> OutOfFuel.
 Proof.
-  unfold build_context. destruct (build_cfg layers ls lo spec over); [|discriminate].
+  unfold build_context. destruct (build_cfg layers lu ls lo user spec over); [|discriminate].
   destruct (add_flat layers lm a [] mgrs) as [[t3 mn]|e|] eqn:E3; [|discriminate | exfalso; eapply add_flat_not_oof; eauto].
   rewrite add_items_flat. destruct (add_flat layers lc t3 [] (pre_all is)) as [[t4 cn]|e|] eqn:E4;
     [discriminate | discriminate | exfalso; eapply add_flat_not_oof; eauto].
 Qed.
 
 (* TWO DEFAULTS FOR ONE KEY (at one layer) ARE REJECTED, wherever the two components stand *)
-Theorem default_clash_rejected mgrs spec over is X Y Z d1 d2 l n1 n2 p v1 v2 :
-  wf_data (DDict spec) -> wf_data (DDict over) -> wf_entries mgrs -> wf_entries (pre_all is) ->
+Theorem default_clash_rejected mgrs user spec over is X Y Z d1 d2 l n1 n2 p v1 v2 :
+  wf_data (DDict user) -> wf_data (DDict spec) -> wf_data (DDict over) -> wf_entries mgrs -> wf_entries (pre_all is) ->
   default_updates mgrs is = X ++ (d1, l, n1) :: Y ++ (d2, l, n2) :: Z ->
   dleaf (DDict d1) p = Some v1 -> dleaf (DDict d2) p = Some v2 ->
-  exists e, build_context layers lm lc ls lo mgrs spec over is = Rejected e.
+  exists e, build_context layers lu lm lc ls lo mgrs user spec over is = Rejected e.
 Proof.
-  intros W1 W2 W3 W4 Ed L1 L2.
-  destruct (build_context layers lm lc ls lo mgrs spec over is) as [ctx|e|] eqn:Hb; [|eauto|exfalso; eapply build_context_not_oof; eauto].
-  exfalso. destruct (build_context_ok layers _ _ _ _ _ _ _ _ _ Hb) as [Hu _].
-  pose proof (all_good mgrs spec over is W1 W2 W3 W4) as Hg.
-  assert (E : all_updates lm lc ls lo mgrs spec over is = ((spec, ls, 0) :: (over, lo, 0) :: X) ++ (d1, l, n1) :: Y ++ (d2, l, n2) :: Z).
+  intros W0 W1 W2 W3 W4 Ed L1 L2.
+  destruct (build_context layers lu lm lc ls lo mgrs user spec over is) as [ctx|e|] eqn:Hb; [|eauto|exfalso; eapply build_context_not_oof; eauto].
+  exfalso. destruct (build_context_ok layers _ _ _ _ _ _ _ _ _ _ _ Hb) as [Hu _].
+  pose proof (all_good mgrs user spec over is W0 W1 W2 W3 W4) as Hg.
+  assert (E : all_updates lu lm lc ls lo mgrs user spec over is = ((user, lu, 0) :: (spec, ls, 0) :: (over, lo, 0) :: X) ++ (d1, l, n1) :: Y ++ (d2, l, n2) :: Z).
   { unfold all_updates. fold (default_updates mgrs is). rewrite Ed. reflexivity. }
   rewrite E in Hu, Hg. rewrite dleaf_odleaf in L1, L2.
-  destruct (apply_updates_clash layers ((spec, ls, 0) :: (over, lo, 0) :: X) Y Z d1 d2 l n1 n2 p v1 v2 empty_tree
+  destruct (apply_updates_clash layers ((user, lu, 0) :: (spec, ls, 0) :: (over, lo, 0) :: X) Y Z d1 d2 l n1 n2 p v1 v2 empty_tree
               Hg unfrozen_empty L1 L2) as [e [He _]].
   pose proof (eq_trans (eq_sym Hu) He) as HH. discriminate HH.
 Qed.
@@ -494,24 +519,24 @@ Qed.
 
 (* ---------------------------------------------------------------------------------------------------------- *)
 (* SET-UP ORDER, FROZEN CONFIGURATION                                                                          *)
-Theorem setup_once_after_managers layers lm lc ls lo mgrs spec over is ctx t order :
-  build_context layers lm lc ls lo mgrs spec over is = Ok ctx -> setup_context ctx = Ok (t, order) ->
+Theorem setup_once_after_managers layers lu lm lc ls lo mgrs user spec over is ctx t order :
+  build_context layers lu lm lc ls lo mgrs user spec over is = Ok ctx -> setup_context ctx = Ok (t, order) ->
   order = names mgrs ++ names (pre_all is) /\ NoDup order /\
   (forall p c, In (p, c) (edges_all is) -> occurs_before p c (names (pre_all is))) /\
   log_ok (names mgrs) is order = true /\ t = freeze (c_cfg ctx).
 Proof.
-  intros Hb Hs. destruct (build_context_ok layers _ _ _ _ _ _ _ _ _ Hb) as [_ [Em [Ec [Nm Nc]]]].
+  intros Hb Hs. destruct (build_context_ok layers _ _ _ _ _ _ _ _ _ _ _ Hb) as [_ [Em [Ec [Nm Nc]]]].
   unfold setup_context in Hs. destruct (znodupb (c_managers ctx ++ c_components ctx)) eqn:E; [|discriminate].
   inversion Hs; subst. rewrite Em, Ec in *. apply znodupb_NoDup in E.
   repeat split; auto; [intros p c; apply parent_first | now apply log_ok_preorder].
 Qed.
 
 (* a component named like a manager is rejected when set-up begins *)
-Theorem manager_name_clash_rejected layers lm lc ls lo mgrs spec over is ctx n :
-  build_context layers lm lc ls lo mgrs spec over is = Ok ctx ->
+Theorem manager_name_clash_rejected layers lu lm lc ls lo mgrs user spec over is ctx n :
+  build_context layers lu lm lc ls lo mgrs user spec over is = Ok ctx ->
   In n (names mgrs) -> In n (names (pre_all is)) -> setup_context ctx = Rejected EConfig.
 Proof.
-  intros Hb H1 H2. destruct (build_context_ok layers _ _ _ _ _ _ _ _ _ Hb) as [_ [Em [Ec _]]].
+  intros Hb H1 H2. destruct (build_context_ok layers _ _ _ _ _ _ _ _ _ _ _ Hb) as [_ [Em [Ec _]]].
   unfold setup_context. rewrite Em, Ec. destruct (znodupb (names mgrs ++ names (pre_all is))) eqn:E; [|reflexivity].
   exfalso. apply znodupb_NoDup in E. apply (nodup_disjoint _ _ n E H1 H2).
 Qed.
